@@ -339,4 +339,23 @@ Theorem C14_fragment_line_has_a_parent_iff_in_a_body :
    ll_parent l = Some (i, t) -> exists a b : nat, In (t, a, b) (body_spans ss)).
 Proof. exact fragment_parent_iff. Qed.
 
+(* parents and the Eof line for units with var/const/type sections *)
+From PasfmtVerif Require Import Model.Fragment Proofs.FragmentProofs Proofs.FragmentUnitProofs.
+Theorem C14_fragment_unit_with_type_sections_parents_precede_children :
+  forall (ds : list udecl) (ss : stmts),
+  wf ss = true -> parents_ok (r_lines (parse_file_model (render_unit2 ds ss) [])) = true.
+Proof. exact fragment_unit2_parents_ok. Qed.
+
+Theorem C14_fragment_unit_with_type_sections_single_eof_line :
+  forall (ds : list udecl) (ss : stmts),
+  wf ss = true ->
+  let r := parse_file_model (render_unit2 ds ss) [] in
+  let e := (length (render_udecls ds) + 1 + length (render ss) + 2)%nat in
+  exists pre : list lline,
+    r_lines r =
+    pre ++ [{| ll_type := LLT_Eof; ll_level := 0; ll_parent := None; ll_toks := [e] |}] /\
+    Forall (fun l : lline => ll_type l <> LLT_Eof) pre /\
+    nth_error (render_unit2 ds ss) e = Some RTT_Eof /\ length (render_unit2 ds ss) = S e.
+Proof. exact fragment_unit2_single_eof_line. Qed.
+
 
